@@ -906,6 +906,7 @@ func propC16(c *Ctx) {
 		// Diff.Add: append of cols[i] guarded by !found where found ← cols[i].Name == indb[j].Name
 		fAdd := w.Field("wpg", "DiffDetails", "Add")
 		okAdd := false
+		earlyExit := false
 		allInstrs(diff, func(in ssa.Instruction) {
 			st, ok := in.(*ssa.Store)
 			if !ok {
@@ -928,8 +929,43 @@ func propC16(c *Ctx) {
 			}
 			if p, ok := stripConv(s).(*ssa.Parameter); ok && p.Name() == "cols" {
 				okAdd = true
+				// the scan looks at EVERY wanted column: the loop over them is left only through its own test
+				// (a `break` – "the table is already as wide as the definition" – leaves later columns unexamined)
+				if h := loopHeaderOf(st); h != nil {
+					lp := naturalLoop(h)
+					// the outermost loop around the append that ranges over the wanted list
+					for _, b := range diff.Blocks {
+						if outer := naturalLoop(b); outer != nil && outer[h] && len(outer) > len(lp) {
+							lp, h = outer, b
+						}
+					}
+					for b := range lp {
+						if b == h {
+							continue
+						}
+						for _, sc := range b.Succs {
+							if lp[sc] {
+								continue
+							}
+							// leaving the loop from inside: only as an error return
+							isErr := false
+							if r, isRet := terminator(sc).(*ssa.Return); isRet {
+								vals := returnValues(r)
+								isErr = len(vals) > 0 && definitelyNonNilError(vals[len(vals)-1], nil)
+							}
+							if !isErr {
+								earlyExit = true
+							}
+						}
+					}
+				}
 			}
 		})
+		if okAdd && earlyExit {
+			c.Violation("R16.4", "Diff/every-wanted-column-examined", diff.Pos(), "the loop over the wanted columns can be left before every column was looked at (other than by returning an error): later missing columns are never added")
+		} else if okAdd {
+			c.OK("R16.4", "Diff/every-wanted-column-examined", diff.Pos(), "the loop over the wanted columns is left only through its own test (or an error return)")
+		}
 		c.Check("R16.4", "Diff/Add=wanted-columns-not-in-catalogue", diff.Pos(), okAdd, "Diff.Add collects elements of the wanted column list")
 		// config.Migrate migrates the table of EVERY integration (a shared table needs each integration's columns)
 		cm := w.Fn("shovel/config", "Migrate")
